@@ -157,7 +157,9 @@ class Mon(object):
                         "member's JoinGroup was written and before the next generation was synced"
                         % (what, topic, part), member=m.name, t=ev["t"], generation=told["generation"])
             return
-        if s["evicted"] is not None and ev["step"] > s["evicted"]["step"]:
+        if s["evicted"] is not None and ev["step"] > s["evicted"]["step"] and what.split()[0] in ("processor", "Fetch"):
+            # (a consumer that stop() is already shutting down gracefully may still finish with a commit, which the
+            # coordinator then rejects; new deliveries and fetches are what shows a consumer that was not stopped)
             res.violate("fence/consumer-activity-after-eviction/%s" % what.split()[0], "%s for %s/%d after the member "
                         "learnt (%s) that it is no longer part of generation %d"
                         % (what, topic, part, s["evicted"]["why"], told["generation"]), member=m.name)
@@ -318,7 +320,13 @@ class Mon(object):
                         continue
                     res.hit("progress_commits_checked")
                     have = stored.get((grp.GROUP, topic, part), (None, ""))[0]
-                    if have == last:
+                    mine = [r for r in m.reqs if r["api"] == "OffsetCommit" and r["done"] is not None
+                            and r["done"]["ok"] and not r["done"]["srv_error"]
+                            and r["body"]["generation"] == told["generation"]
+                            and any(t_["topic"] == topic and any(p_["partition"] == part and p_["offset"] == last
+                                                                 for p_ in t_["partitions"]) for t_ in r["body"]["topics"])]
+                    if have == last or mine:
+                        # (the coordinator may hold a later value committed by the partition's next owner)
                         res.ob("progress_committed_before_rejoin")
                         continue
                     rej = s["rejected"].get((topic, part))
